@@ -9,15 +9,16 @@ import (
 )
 
 type profile struct {
-	Name         string `json:"name"`
-	Keys         int    `json:"keys"`          // number of real boundary keys
-	MaxID        uint64 `json:"max_id"`        // region ids 1..MaxID
-	Ops          int    `json:"ops"`           // operations per history
-	Prefill      bool   `json:"prefill"`       // start from a fully covered key space
-	Stores       int    `json:"stores"`        // peers live on stores 1..Stores (at most 8)
-	NearEach     int    `json:"near_each"`     // lookups around the touched range every n-th operation
-	FullEach     int    `json:"full_each"`     // sampled broad comparison every n-th operation
-	CompleteEach int    `json:"complete_each"` // complete comparison every n-th operation (and after the last)
+	Name         string  `json:"name"`
+	Keys         int     `json:"keys"`          // number of real boundary keys
+	MaxID        uint64  `json:"max_id"`        // region ids 1..MaxID
+	Ops          int     `json:"ops"`           // operations per history
+	Prefill      bool    `json:"prefill"`       // start from a fully covered key space
+	Stores       int     `json:"stores"`        // peers live on stores 1..Stores (at most 8)
+	Density      float64 `json:"density"`       // target: live regions / boundary intervals
+	NearEach     int     `json:"near_each"`     // lookups around the touched range every n-th operation
+	FullEach     int     `json:"full_each"`     // sampled broad comparison every n-th operation
+	CompleteEach int     `json:"complete_each"` // complete comparison every n-th operation (and after the last)
 }
 
 // op is one recorded operation of a history (self-contained: can be re-applied to any state).
@@ -119,7 +120,9 @@ func (g *gen) randRange() (int, int) {
 	case 2:
 		span = 3
 	case 3:
-		span = 1 + g.rng.Intn(n)
+		if g.rng.Intn(4) == 0 {
+			span = 1 + g.rng.Intn(n/3+1)
+		}
 	}
 	j := i + span
 	if j > n {
@@ -260,7 +263,7 @@ func (g *gen) mutateSame0(sp *regionSpec) string {
 		}
 		return fs[g.rng.Intn(len(fs))]
 	}
-	switch k := g.rng.Intn(13); k {
+	switch k := g.rng.Intn(14); k {
 	case 0, 1, 2:
 		old := sp.Size
 		sp.Size = g.randSize()
@@ -315,6 +318,14 @@ func (g *gen) mutateSame0(sp *regionSpec) string {
 		}
 		sp.Peers[i].Learner = !sp.Peers[i].Learner
 		return "flip-role"
+	case 12:
+		// same peers, reported in another order: nothing changed as far as the statement goes
+		g.rng.Shuffle(len(sp.Peers), func(i, j int) { sp.Peers[i], sp.Peers[j] = sp.Peers[j], sp.Peers[i] })
+		g.rng.Shuffle(len(sp.Pending), func(i, j int) { sp.Pending[i], sp.Pending[j] = sp.Pending[j], sp.Pending[i] })
+		if g.rng.Intn(2) == 0 {
+			sp.Size = g.randSize()
+		}
+		return "reorder"
 	case 11:
 		if sp.Size == 0 {
 			sp.Size = 3
@@ -374,16 +385,39 @@ func (g *gen) nextOps(m *model) []op {
 	}
 	set := func(sp *regionSpec, note string) []op { return []op{{Kind: "set", Spec: sp, Note: note}} }
 
+	// op mix: weights sum to 100. While the world is below the history's target density, growth
+	// operations (fill a hole, split) are forced two times out of three, so that histories spend
+	// their time in populated worlds (sparse, half-full or dense, depending on the target).
+	const (
+		wNew      = 8
+		wHole     = wNew + 14
+		wSame     = wHole + 26
+		wSwallow  = wSame + 8
+		wMove     = wSwallow + 5
+		wResize   = wMove + 8
+		wSplit    = wResize + 14
+		wSameOth  = wSplit + 4
+		wChain    = wSameOth + 5
+		wRemoveTo = 100
+	)
 	for {
-		switch k := rng.Intn(100); {
-		case k < 12: // new id, random (mostly short) range
+		k := rng.Intn(100)
+		if float64(len(m.es)) < g.prof.Density*float64(len(g.keys)+1) && rng.Intn(3) != 0 {
+			if rng.Intn(2) == 0 {
+				k = wNew // fill-hole
+			} else {
+				k = wResize // split
+			}
+		}
+		switch {
+		case k < wNew: // new id, random (mostly short) range
 			id := freshID()
 			if id == 0 {
 				continue
 			}
 			i, j := g.randRange()
 			return set(newSpec(id, i, j), "new")
-		case k < 20: // new id exactly filling a hole
+		case k < wHole: // new id filling a hole (or a short piece at one of its edges)
 			id := freshID()
 			if id == 0 {
 				continue
@@ -412,15 +446,16 @@ func (g *gen) nextOps(m *model) []op {
 			}
 			h := holes[rng.Intn(len(holes))]
 			i, j := h.i, h.j
-			if j-i > 1 && rng.Intn(2) == 0 { // only the left / right part of the hole
+			if j-i > 1 && rng.Intn(10) < 7 { // only a short piece at the left / right edge of the hole
+				w := 1 + rng.Intn(minInt(2, j-i-1))
 				if rng.Intn(2) == 0 {
-					j = i + 1 + rng.Intn(j-i-1)
+					j = i + w
 				} else {
-					i = i + 1 + rng.Intn(j-i-1)
+					i = j - w
 				}
 			}
 			return set(newSpec(id, i, j), "fill-hole")
-		case k < 44: // same id, same range, something else changed
+		case k < wSame: // same id, same range, something else changed
 			e := pickExisting()
 			if e == nil {
 				continue
@@ -430,12 +465,12 @@ func (g *gen) nextOps(m *model) []op {
 			g.via(sp)
 			normalise(sp)
 			return set(sp, "same-range:"+sub)
-		case k < 56: // range that swallows k consecutive neighbours (existing or new id)
+		case k < wSwallow: // range that swallows k consecutive neighbours (existing or new id)
 			s := m.sorted()
 			if len(s) == 0 {
 				continue
 			}
-			kk := 1 + rng.Intn(4)
+			kk := []int{1, 1, 1, 1, 2, 2, 2, 3, 3, 4}[rng.Intn(10)]
 			a := rng.Intn(len(s))
 			b := a + kk - 1
 			if b >= len(s) {
@@ -465,14 +500,14 @@ func (g *gen) nextOps(m *model) []op {
 				continue
 			}
 			return set(newSpec(id, i, j), note+":new-id")
-		case k < 63: // same id moved elsewhere
+		case k < wMove: // same id moved elsewhere
 			e := pickExisting()
 			if e == nil {
 				continue
 			}
 			i, j := g.randRange()
 			return set(derive(e, i, j, rng.Intn(2) == 0), "move")
-		case k < 71: // same id, one side moved by one boundary (grow / shrink)
+		case k < wResize: // same id, one side moved by one boundary (grow / shrink)
 			e := pickExisting()
 			if e == nil {
 				continue
@@ -492,7 +527,7 @@ func (g *gen) nextOps(m *model) []op {
 				continue
 			}
 			return set(derive(e, i, j, false), "resize")
-		case k < 78: // split: left part keeps the id, right part gets a new id
+		case k < wSplit: // split: left part keeps the id, right part gets a new id
 			e := pickExisting()
 			if e == nil {
 				continue
@@ -532,7 +567,7 @@ func (g *gen) nextOps(m *model) []op {
 				ops[0], ops[1] = ops[1], ops[0]
 			}
 			return ops
-		case k < 83: // another id takes exactly the range of an existing region
+		case k < wSameOth: // another id takes exactly the range of an existing region
 			e := pickExisting()
 			id := freshID()
 			if e == nil || id == 0 {
@@ -540,7 +575,7 @@ func (g *gen) nextOps(m *model) []op {
 			}
 			i, j := g.startIndex(e.spec.Start), g.endIndex(e.spec.End)
 			return set(newSpec(id, i, j), "same-range-other-id")
-		case k < 88: // new region chained to the end / start of an existing one
+		case k < wChain: // new region chained to the end / start of an existing one
 			e := pickExisting()
 			id := freshID()
 			if e == nil || id == 0 {
